@@ -99,7 +99,7 @@ def all_calls(outs, pred=None):
     for o in outs:
         for e in o.trace:
             if e[0] == "call" and (pred is None or pred(e)):
-                seen.setdefault((e[1], e[2], e[3]), (e, o))
+                seen.setdefault((e[1], e[2], e[3], e[5] if len(e) > 5 else None), (e, o))
     return list(seen.values())
 
 
